@@ -34,8 +34,10 @@ PROVED = {
     'ConfigParams': ('block', 'ConfigParams', 'c16_src_ConfigParams', 'blk'),
     'McStateExtra': ('block', 'McStateExtra', 'c16_src_McStateExtra', 'blk'),
     'ShardStateUnsplit': ('block', 'ShardStateUnsplit', 'c16_src_ShardStateUnsplit', 'blk'),
+    'McBlockExtra': ('block', 'McBlockExtra', 'c16_src_McBlockExtra', 'blk'),
+    'ShardState': ('block', 'ShardState', 'c16_src_ShardState', 'blk'),
 }
-N_VALIDATE = {'BlockInfo': 16, 'ConsensusConfig': 12, 'McStateExtra': 8, 'ShardStateUnsplit': 8}
+N_VALIDATE = {'BlockInfo': 16, 'ConsensusConfig': 12, 'McStateExtra': 8, 'ShardStateUnsplit': 8, 'McBlockExtra': 8, 'ShardState': 6}
 
 
 def label(cls):
